@@ -6,11 +6,18 @@
 From Coq Require Import List Bool Arith.
 From SF Require Import Base.Str Base.Corr.
 From SF Require Export DataReg.Model JobDirs.Model.
+From SF Require DataReg.Corr.
 Import ListNotations.
 Local Open Scope string_scope. Local Open Scope list_scope.
 
 Inductive cjob := CJob (d_in d_out d_tmp : path) (all_exist all_registered : bool).
-Inductive ccase := CJobs (workdir : path) (f : fixeddirs) (names : list string) (jobs : list cjob).
+Inductive ccase :=
+| CJobs (workdir : path) (f : fixeddirs) (names : list string) (jobs : list cjob)
+(* the same, plus the registry: on the locations [syms] of [tab] the work directory is a symbolic link to [realwd];
+   obs = for every job, for each of its three directories, for every location of [tab], what
+   get_data_locations(directory, deployment, name) answered *)
+| CJobsRp (workdir realwd : path) (syms : list nat) (tab : list locinfo) (f : fixeddirs) (names : list string)
+          (jobs : list cjob) (obs : list (list (list (list item)))).
 
 Fixpoint nodupb (l : list string) : bool :=
   match l with [] => true | x :: l' => negb (existsb (String.eqb x) l') && nodupb l' end.
@@ -27,9 +34,27 @@ Fixpoint drawn (f : fixeddirs) (names : list string) : list string :=
       ++ (match f_tmp f with None => [c] | Some _ => [] end) ++ drawn f rest
   | _ => []
   end.
+Definition dirs_of (j : cjob) : list path := match j with CJob a b c _ _ => [a; b; c] end.
+Definition loc_items (tab : list locinfo) (s : st) (d : path) (li : nat) : list item :=
+  let k := key_of tab li in DataReg.Corr.items_of s (get_dl s d (Some (fst k)) (Some (snd k)) None).
+Definition check_registry (w rw : path) (syms : list nat) (tab : list locinfo) (jobs : list cjob)
+                          (obs : list (list (list (list item)))) : bool :=
+  let locs := seq 0 (length tab) in
+  let s := fold_left (fun s j => reg_dirs_rp tab (realpath_of w rw syms) s (loc_dirs locs (dirs_of j))) jobs init in
+  forallb (fun k =>
+    forallb (fun i =>
+      forallb (fun li =>
+        DataReg.Corr.ms_eqb (loc_items tab s (nth i (dirs_of (nth k jobs (CJob [] [] [] false false))) []) li)
+                            (nth li (nth i (nth k obs []) []) []))
+        locs) [0; 1; 2]) (seq 0 (length jobs))
+  && Nat.eqb (length obs) (length jobs).
 Definition check_case (c : ccase) : bool :=
   match c with
   | CJobs w f names jobs =>
       Nat.eqb (length names) (3 * length jobs) && nodupb (drawn f names)
       && check_jobs (fun n => nth n names "") w f 0 jobs
+  | CJobsRp w rw syms tab f names jobs obs =>
+      Nat.eqb (length names) (3 * length jobs) && nodupb (drawn f names)
+      && check_jobs (fun n => nth n names "") w f 0 jobs
+      && check_registry w rw syms tab jobs obs
   end.
